@@ -337,6 +337,9 @@ func (ex *Exec) sentinel(g *ssa.Global) *Term {
 	}
 	ex.sentinels[name] = t
 	ex.facts = append(ex.facts, ex.p.Gt(t, ex.p.Int(0)))
+	if ex.heapTop0 != nil {
+		ex.facts = append(ex.facts, ex.p.Lt(t, ex.heapTop0)) // created at package initialisation
+	}
 	for _, o := range others {
 		ex.facts = append(ex.facts, ex.p.Not(ex.p.Eq(t, o)))
 	}
@@ -590,6 +593,7 @@ func (ex *Exec) execLoop(fr *frame, l *Loop, in []edge) []edge {
 			ex.fail("loop-carried pointer phi %s cannot be havoced", ph.Name())
 		}
 	}
+	ex.rangeIndexFacts(h, l)
 	for _, inv := range spec.Invariants {
 		ex.assume(h, ex.evalAssume(ex.ctxFor(fr, h, lc), inv))
 	}
@@ -1620,4 +1624,51 @@ func addrStaysLocal(v ssa.Value, depth int) bool {
 		}
 	}
 	return true
+}
+
+// rangeIndexFacts: the hidden index of a range-over-slice loop (the SSA builder's "rangeindex" phi: -1 before the
+// first element, incremented by one per iteration while rangeindex+1 < len, where len was taken once before the
+// loop and the program cannot assign the index) satisfies -1 <= rangeindex and rangeindex+1 <= len at the head.
+func (ex *Exec) rangeIndexFacts(h *State, l *Loop) {
+	p := ex.p
+	for _, in := range l.Header.Instrs {
+		ph, ok := in.(*ssa.Phi)
+		if !ok {
+			break
+		}
+		if ph.Comment != "rangeindex" {
+			continue
+		}
+		pt, ok := h.vals[ph].(*Term)
+		if !ok {
+			continue
+		}
+		for _, in2 := range l.Header.Instrs {
+			cmp, ok := in2.(*ssa.BinOp)
+			if !ok || cmp.Op != token.LSS {
+				continue
+			}
+			add, ok := cmp.X.(*ssa.BinOp)
+			if !ok || add.Op != token.ADD || add.X != ph {
+				continue
+			}
+			if k, ok := add.Y.(*ssa.Const); !ok || k.Int64() != 1 {
+				continue
+			}
+			if l.Blocks[valueBlock(cmp.Y)] {
+				continue // the bound must be computed before the loop
+			}
+			if lv, ok := h.vals[cmp.Y].(*Term); ok {
+				ex.assume(h, p.And(p.Le(p.Int(-1), pt), p.Le(p.Add(pt, p.Int(1)), lv)))
+				ex.assumptions["range loops: the hidden index stays within -1 .. len-1 (structure of the SSA range lowering)"] = true
+			}
+		}
+	}
+}
+
+func valueBlock(v ssa.Value) *ssa.BasicBlock {
+	if in, ok := v.(ssa.Instruction); ok {
+		return in.Block()
+	}
+	return nil
 }
